@@ -11,12 +11,14 @@ TYPES = [
     "(A['int] | B['int])",
     "[('int | 'bin), 'int]",
     "(A[a: 'int] | [])",
+    "[(A['int] | B['int]), 'int]",
 ]
 
 PATTERNS = [
     "*", "A*", "(c)", "A(c)", "(a)", "(a, c)", "[x, y]", "[x, _]", "[x, x]", "[x, &x]", "[x, &q]", "A[x]",
     "(A[x] | B[x])", "('int)n", "'int", "5", "[]", "Point[x, y]", "[x: p, y: r]", "(x, y)", "Point(x)",
     "[('int)n, y]", "[('bin)n, y]", "A[a: ('int)n]", "(A[a: x] | B[b: x])", "[5, y]", "x",
+    "[(A[x] | B[x]), x]", "[(A[x] | B[x]), y]", "[(A[x] | B[y]), n]", "[A[x], x]",
 ]
 
 CONTEXTS = [
